@@ -33,7 +33,7 @@ for d in sorted(glob.glob(os.path.join(V, "seeded", "C??-r?"))):
     json.dump(m, open(mp, "w"), indent=1)
 bm_p = os.path.join(V, "benign", "matrix.json")
 bm = json.load(open(bm_p)) if os.path.exists(bm_p) else {}
-for d in sorted(glob.glob(os.path.join(V, "benign", "C??-b[2345]"))):
+for d in sorted(glob.glob(os.path.join(V, "benign", "C??-b[23456]"))):
     name = os.path.basename(d)
     if not os.path.exists(os.path.join(d, "agent_meta.json")):
         continue                      # sets written by hand keep their own meta.json
